@@ -34,6 +34,7 @@ Inductive zip_op :=
 (* iterator values: ZSeq p = seq := t.AscendPrefix(p) kept in a pool; ZRange i n o = one range over pool[i], stopped after n
    items (n = 0: drained).  Every range is a fresh traversal of the tree as it is when that range starts. *)
 | ZSeq (p : bytes) | ZRange (i n : N) (o : list (bytes * bytes)).
+Inductive zipn_op := ZOn (i : N) (op : zip_op) | ZReset (i : N).
 Inductive cache_op :=
 | KPush (v : bytes) (o_size : N) | KPop (o : option bytes) (o_size : N) | KPopLast (o : option bytes) (o_size : N)
 | KPeek (o : option bytes) | KDelete (k : bytes) (o_size : N) | KEmpty (o : bool).
@@ -65,6 +66,7 @@ Inductive case :=
 | CHeap (ops : list heap_op)
 | CPPQ (init : list (list N)) (ops : list ppq_op)
 | CZip (ops : list zip_op)
+| CZipN (ntrees : N) (ops : list zipn_op)
 | CCache (probe : N) (ops : list cache_op)
 | CSet (ops : list set_op)
 | CPSet (univ : list bytes) (ops : list pset_op)
@@ -166,26 +168,40 @@ Definition limited {A} (lim : N) (l : list A) : list A := if lim =? 0 then l els
 (* ---------- zip tree ---------- *)
 Definition kvs_eqb := list_eqb kv_eqb.
 Definition pfilter (p : bytes) (m : list (bytes * bytes)) := filter (fun kv => is_prefix p (fst kv)) m.
-Fixpoint zip_run (ops : list zip_op) (t : tree) (ref : list (bytes * bytes)) (seqs : list bytes) : list N :=
+(* one tree: model tree, reference association list, pool of iterator prefixes *)
+Definition zstate := (tree * list (bytes * bytes) * list bytes)%type.
+Definition zstate0 : zstate := (Leaf, [], []).
+Definition zip_step (op : zip_op) (st : zstate) : list N * zstate :=
+  let '(t, ref, seqs) := st in
+  match op with
+  | ZPut k v rank o =>
+      let '(t', old) := put k v rank t in
+      (chk (opt_eqb bytes_eqb old o) 4 ++ chk (opt_eqb bytes_eqb (al_get k ref) o) 14, (t', al_put k v ref, seqs))
+  | ZGet k o =>
+      (chk (opt_eqb bytes_eqb (get k t) (option_map snd o)) 4 ++
+       chk (opt_eqb bytes_eqb (al_get k ref) (option_map snd o) && match o with Some kv => bytes_eqb (fst kv) k | None => true end) 14, st)
+  | ZAscend p o => (chk (kvs_eqb (ascend_prefix p t) o) 4 ++ chk (kvs_eqb (pfilter p ref) o) 14, st)
+  | ZAscendN p n o => (chk (kvs_eqb (firstn (N.to_nat n) (ascend_prefix p t)) o) 4 ++
+                       chk (kvs_eqb (firstn (N.to_nat n) (pfilter p ref)) o) 14, st)
+  | ZSeq p => ([], (t, ref, seqs ++ [p]))
+  | ZRange i n o =>
+      let p := nth (N.to_nat i) seqs [] in
+      (chk (kvs_eqb (limited n (ascend_prefix p t)) o) 4 ++ chk (kvs_eqb (limited n (pfilter p ref)) o) 14, st)
+  end.
+Fixpoint zip_run (ops : list zip_op) (st : zstate) : list N :=
   match ops with
   | [] => []
-  | op :: r =>
-      match op with
-      | ZPut k v rank o =>
-          let '(t', old) := put k v rank t in
-          chk (opt_eqb bytes_eqb old o) 4 ++ chk (opt_eqb bytes_eqb (al_get k ref) o) 14 ++ zip_run r t' (al_put k v ref) seqs
-      | ZGet k o =>
-          chk (opt_eqb bytes_eqb (get k t) (option_map snd o)) 4 ++
-          chk (opt_eqb bytes_eqb (al_get k ref) (option_map snd o) && match o with Some kv => bytes_eqb (fst kv) k | None => true end) 14 ++
-          zip_run r t ref seqs
-      | ZAscend p o => chk (kvs_eqb (ascend_prefix p t) o) 4 ++ chk (kvs_eqb (pfilter p ref) o) 14 ++ zip_run r t ref seqs
-      | ZAscendN p n o => chk (kvs_eqb (firstn (N.to_nat n) (ascend_prefix p t)) o) 4 ++
-                          chk (kvs_eqb (firstn (N.to_nat n) (pfilter p ref)) o) 14 ++ zip_run r t ref seqs
-      | ZSeq p => zip_run r t ref (seqs ++ [p])
-      | ZRange i n o =>
-          let p := nth (N.to_nat i) seqs [] in
-          chk (kvs_eqb (limited n (ascend_prefix p t)) o) 4 ++ chk (kvs_eqb (limited n (pfilter p ref)) o) 14 ++ zip_run r t ref seqs
-      end
+  | op :: r => let '(codes, st') := zip_step op st in codes ++ zip_run r st'
+  end.
+(* several trees in one case: node OBJECTS travel between them (the node Put returned as replaced, nodes of a tree that was
+   given up); Put inserts the node's (key, value) only - its previous links and rank must not matter, which is why the
+   model needs nothing but ZPut for it.  ZReset i: tree i is given up and replaced by a new empty tree. *)
+Fixpoint zipn_run (ops : list zipn_op) (sts : list zstate) : list N :=
+  match ops with
+  | [] => []
+  | ZOn i op :: r =>
+      let '(codes, st') := zip_step op (nth (N.to_nat i) sts zstate0) in codes ++ zipn_run r (upd (N.to_nat i) st' sts)
+  | ZReset i :: r => zipn_run r (upd (N.to_nat i) zstate0 sts)
   end.
 
 (* ---------- sorted cache ---------- *)
@@ -335,7 +351,8 @@ Definition check_case (c : case) : list N :=
   | CSearchRange tbls key i ok => search_check range_key_compare tbls key i ok
   | CHeap ops => heap_run ops [] []
   | CPPQ init ops => ppq_run ops (ppq_new init) (ppq_ref_init init)
-  | CZip ops => zip_run ops Leaf [] []
+  | CZip ops => zip_run ops zstate0
+  | CZipN n ops => zipn_run ops (repeat zstate0 (N.to_nat n))
   | CCache probe ops => cache_run probe ops (cache_new 0) []
   | CSet ops => set_run ops set_empty []
   | CPSet univ ops => pset_run univ ops [] [] []
